@@ -87,6 +87,18 @@ Theorem C08_nd_shift_fm_mirror (S : ScalOps) (p : plan) (amps : list (triple S))
 Proof. exact (relocate_fm_mirror S p amps j). Qed.
 Print Assumptions C08_nd_shift_fm_mirror.
 
+(* Z clause of the n-D shift, PARTIAL: proved under the hypothesis that the scatter list (target cell, Z amplitude) of
+   the plan has distinct targets and is closed under (cell -> mirror cell, value -> conjugate); that closure (a
+   well-formed input on an antisymmetric sorted wavenumber table) is observed by wfb_obs, not proved *)
+Theorem C08_nd_shift_fz_mirror_partial (S : ScalOps) (L : ScalLaws S) (p : plan) (amps : list (triple S)) (j : nat) :
+  let ps := opairs (pL p) (map (@fz S) amps) in
+  NoDup (map fst ps) ->
+  (forall a v, In (a, v) ps -> (a < length (pk p))%nat /\ In ((length (pk p) - 1 - a)%nat, kconj v) ps) ->
+  (j < length (pk p))%nat ->
+  fz (nth (length (pk p) - 1 - j) (relocate p amps) t0) = kconj (fz (nth j (relocate p amps) t0)).
+Proof. exact (relocate_fz_mirror S L p amps j). Qed.
+Print Assumptions C08_nd_shift_fz_mirror_partial.
+
 (* non-vacuity: a program with D whose side conditions hold, on the executed instance *)
 Example C08_nonvacuous_ext :
   let es : list (eop QIops) :=
